@@ -1,6 +1,8 @@
 """C11 - each output stream is written at exactly its own requested cadence."""
 from __future__ import annotations
 
+import os
+
 import itertools
 from typing import Any, Dict, List
 
@@ -120,7 +122,100 @@ def probe_na_stream(inp):
             "fields": {"kinds": ["labels:nonadiabatic"] if any("nonadiabatic" in b for b in bad) else (["labels"] if bad else []), "engine": "surface_hopping", "resumed": inp.get("stop_at") is not None}}
 
 
-PROBES = {"cadence_run": probe_cadence_run, "na_stream": probe_na_stream}
+def _observer_child(inp):
+    """real engine (ground or excited surface, with every stream on): wrap every output action and compare the molecule's state before/after;
+    then cross-check the streams of one step against each other"""
+    import contextlib
+    import io
+    import re
+    import shutil
+
+    import h5py
+    import torch
+
+    import seqm.MolecularDynamics as MD
+
+    d = mdh.scratch_dir("c11obs")
+    try:
+        sc = dict(engine=inp.get("engine", "basic"), stub=False, mols=inp["mols"], molid=list(range(len(inp["mols"]))), steps=inp["steps"], temp=300.0, k=4, dt=0.4,
+                  cad=dict(data=inp["data"], coordinates=1, velocities=1, forces=1, xyz=inp["xyz"], print=0, ckpt=inp.get("ckpt", 0)), seqm=dict(inp.get("seqm", {})))
+        mol, md = mdh.make_md(sc, os.path.join(d, "md"))
+        names = ("Etot", "coordinates", "velocities", "force", "dm", "cis_energies", "acc")
+
+        def snap():
+            out = {}
+            for k in names:
+                v = getattr(mol, k, None)
+                if torch.is_tensor(v):
+                    out[k] = v.detach().clone()
+            return out
+        touched = []
+
+        def guard(obj, meth, label):
+            orig = getattr(obj, meth)
+
+            def w(*a, **k):
+                before = snap()
+                r = orig(*a, **k)
+                after = snap()
+                for kk in before:
+                    if kk in after and before[kk].shape == after[kk].shape and not torch.equal(before[kk], after[kk]):
+                        touched.append(f"{label} changes molecule.{kk} by {float((before[kk] - after[kk]).abs().max()):.3e}")
+                return r
+            setattr(obj, meth, w)
+        with contextlib.redirect_stdout(io.StringIO()):
+            md.initialize(mol, remove_com=None, learned_parameters={}, steps=inp["steps"]) if False else None
+        # the writers exist only after initialize(); wrap lazily through run's first use
+        orig_init = md.initialize
+
+        def init_w(*a, **k):
+            r = orig_init(*a, **k)
+            if md._h5_writer is not None:
+                guard(md._h5_writer, "append_data", "HDF5 append_data")
+                guard(md._h5_writer, "append_vectors", "HDF5 append_vectors")
+            if md._xyz_writer is not None:
+                guard(md._xyz_writer, "write", "XYZ write")
+            return r
+        md.initialize = init_w
+        guard(md, "save_checkpoint", "save_checkpoint")
+        with contextlib.redirect_stdout(io.StringIO()):
+            md.run(mol, inp["steps"], seed=3)
+        bad = list(dict.fromkeys(touched))[:6]
+        # cross-stream consistency of one step
+        for m in range(len(inp["mols"])):
+            with h5py.File(os.path.join(d, f"md.{m}.h5"), "r") as f:
+                steps = f["data/steps"][...].tolist()
+                Ek, Ep = f["data/thermo/Ek"][...], f["data/thermo/Ep"][...]
+                se = f["data/excitation/state_energies"][...] if "data/excitation/state_energies" in f else None
+            act = int(inp.get("seqm", {}).get("active_state", 0))
+            if se is not None:
+                dmax = float(np.abs(se[:, act] - Ep).max())
+                if dmax > 1e-9:
+                    bad.append(f"mol{m}: stored energy of the active state differs from the stored potential energy by {dmax:.3e} eV")
+            if inp["xyz"] > 0:
+                txt = open(os.path.join(d, f"md.{m}.xyz")).read()
+                for st, et in re.findall(r"step:\s*(\d+)\s+E_total =\s*(-?[0-9.]+)", txt):
+                    st, et = int(st), float(et)
+                    if st in steps:
+                        i = steps.index(st)
+                        if abs(et - (Ek[i] + Ep[i])) > 2e-8:
+                            bad.append(f"mol{m}: XYZ frame of step {st} says E_total = {et:.9f}, the thermo row of the same step says {Ek[i] + Ep[i]:.9f}")
+                            break
+            if abs(float(mol.Etot[m]) - Ep[-1]) > 1e-9 and steps[-1] == inp["steps"]:
+                bad.append(f"mol{m}: molecule.Etot after the run ({float(mol.Etot[m]):.9f}) is not the stored potential energy of the last step ({Ep[-1]:.9f})")
+        return bad
+    finally:
+        shutil.rmtree(d, ignore_errors=True)
+
+
+def probe_writers_observe(inp):
+    mdh.DEFAULT_MOLS.setdefault("ch2o", ([8, 6, 1, 1], [[1.21, 0.03, 0.0], [0.0, 0.0, 0.02], [-0.58, 0.94, 0.0], [-0.58, -0.94, 0.03]]))
+    bad = mdh.call_with_timeout(_observer_child, inp, 900)
+    return {"ok": not bad, "observed": bad[:6], "expected": "output actions only read the molecule; all streams of a step describe the same state", "predicate": "",
+            "fields": {"kinds": ["writers_observe"] if bad else [], "excited": bool(inp.get("seqm", {}).get("active_state", 0))}}
+
+
+PROBES = {"writers_observe": probe_writers_observe, "cadence_run": probe_cadence_run, "na_stream": probe_na_stream}
 
 
 def model_line(sc) -> str:
@@ -227,6 +322,16 @@ def run(ctx: Ctx):
             ctx.obligation("probe na_stream evaluated", False, repr(r)[-1200:], kind="harness")
             continue
         ctx.probe_case("na_stream", c, r["ok"], fields=r["fields"], observed=r["observed"], expected=r["expected"], predicate=r["predicate"], stratum="resumed" if c.get("stop_at") else "fresh")
+    # output actions are observers (real engine; ground and excited surface; every stream on)
+    ex = {"excited_states": {"n_states": 2, "method": "cis"}, "active_state": 1}
+    ob_cases = [dict(mols=["ch2o"], steps=3, data=1, xyz=1, ckpt=2, seqm=ex), dict(mols=["h2o"], steps=4, data=int(rng.choice([1, 2])), xyz=1, ckpt=0, engine=str(rng.choice(["basic", "xl"])))]
+    if ctx.thorough:
+        ob_cases += [dict(mols=["h2o", "h2o"], steps=4, data=2, xyz=2, ckpt=2, seqm=dict(ex, active_state=2)), dict(mols=["h2o"], steps=3, data=1, xyz=1, ckpt=1, engine="xl", seqm=ex)]
+    for c, r in zip(ob_cases, mdh.pmap(probe_writers_observe, ob_cases, nproc=4, timeout=1500)):
+        if isinstance(r, Exception) or r is None:
+            ctx.obligation("probe writers_observe evaluated", False, repr(r)[-1200:], kind="harness")
+            continue
+        ctx.probe_case("writers_observe", c, r["ok"], fields=r["fields"], observed=r["observed"], expected=r["expected"], predicate=r["predicate"], stratum="excited" if c.get("seqm") else "ground")
     ctx.extra["input_distribution"] = {
         "cases": len(cases),
         "coprime_vector_tuples": sum(1 for s in cases if len({s["cad"].get(g, 0) for g in STREAMS[1:]} - {0}) == 3),
